@@ -107,7 +107,8 @@ def parseOps (s : String) : Option (List Op) := (splitNonEmpty s ";").mapM parse
 /-- round 5: `oc:<hdrLen>:<body>:<known>:<head>:<trailer>:<cut>` = a request cancelled after `cut`
 octets of its header block; `hx:<fid>:<n>:<id>` / `hr:<fid>:<n>:<id>:<m>` / `hc:<fid>:<n>:<id>` =
 Body.Close / Body.Read / cancel on stream `id` while the writer of stream `fid` (handed `n` octets)
-is parked inside a DATA frame -/
+is parked inside a DATA frame; `tc:<fid>:<n>:<cut>` = the last feed of an upload with trailers, cancelled
+after `cut` octets of the trailer block -/
 def parseXOp (s : String) : Option Cut.XOp :=
   match s.splitOn ":" with
   | ["oc", h, b, k, hd, tr, cut] => do
@@ -116,6 +117,7 @@ def parseXOp (s : String) : Option Cut.XOp :=
   | ["hx", fid, n, id] => do pure (.held (← fid.toNat?) (← n.toNat?) (.close (← id.toNat?)))
   | ["hr", fid, n, id, m] => do pure (.held (← fid.toNat?) (← n.toNat?) (.read (← id.toNat?) (← m.toNat?)))
   | ["hc", fid, n, id] => do pure (.held (← fid.toNat?) (← n.toNat?) (.cancel (← id.toNat?)))
+  | ["tc", fid, n, cut] => do pure (.feedCancel (← fid.toNat?) (← n.toNat?) (← cut.toNat?))
   | _ => (parseOp s).map Cut.XOp.plain
 
 def parseXOps (s : String) : Option (List Cut.XOp) := (splitNonEmpty s ";").mapM parseXOp
